@@ -262,12 +262,22 @@ func entryConstEnv(fn *ssa.Function) map[ssa.Value]Expr {
 }
 
 func pairKey(a Atom) string {
+	l, r := snapKey(a.L), snapKey(a.R)
 	if a.Op == "<" || a.Op == "<=" {
-		if a.L > a.R {
-			return a.R + "~" + a.L
+		if l > r {
+			return r + "~" + l
 		}
 	}
-	return a.L + "~" + a.R
+	return l + "~" + r
+}
+
+// snapKey reduces an operand naming a register snapshot to the snapshot's
+// identity, so that static and path-resolved spellings of its base agree.
+func snapKey(s string) string {
+	if i := strings.LastIndex(s, SnapMark+"@"); i >= 0 {
+		return s[i:]
+	}
+	return s
 }
 
 func (e *Explorer) tracked(x *X, a Atom) (track, sticky bool) {
@@ -468,7 +478,7 @@ func (e *Explorer) runFrame(fr *Frame, st0 *State) []exitRec {
 					old, had := st.Env[phi]
 					marker := Expr{S: "phi" + fr.vid(phi)}
 					st.Env[phi] = marker
-					ev := canon(fr, st.Env, phi.Edges[pi], 0)
+					ev := snapCanon(fr, st.Env, phi.Edges[pi], phi)
 					if had {
 						st.Env[phi] = old
 					} else {
@@ -584,6 +594,14 @@ func (e *Explorer) branch(fr *Frame, s *State, iff *ssa.If, b *ssa.BasicBlock, w
 		tFeasible, fFeasible = true, true
 	}
 	track, sticky := e.tracked(x, a)
+	if debugExplore && strings.Contains(a.String(), os.Getenv("SLOCKCHECK_TRACE")) {
+		fmt.Fprintf(os.Stderr, "branch %s frame=%q track=%v count=%d tF=%v fF=%v facts=%s\n", a, fr.ID, track, e.conds(fr)[pairKey(a)], tFeasible, fFeasible, s.Facts.key())
+		for k, v := range e.conds(fr) {
+			if strings.Contains(k, "locked") {
+				fmt.Fprintf(os.Stderr, "   cond %q = %d (want %q)\n", k, v, pairKey(a))
+			}
+		}
+	}
 	emit := func(succ *ssa.BasicBlock, at Atom, st *State) {
 		xx := &X{E: e, Fr: fr, St: st, Ins: iff}
 		if track {
